@@ -871,6 +871,15 @@ def run_lookups(ctx, shard):
     # the notes handed out with a lookup result belong to the caller: changing them changes no later result
     realfft = sys.modules["mingus.extra.fft"]
     table_in = [(440.0, 1.0), (261.63, 0.5), (30000.0, 0.1), (table[60], 2.0), (55.0, 0.25)]
+    for given in (list(table_in), sorted(table_in), sorted(table_in, reverse=True), [(880.0, 1.0), (110.0, 3.0)]):
+        arg = list(given)
+        st, _r = ctx.call(realfft.find_notes, arg)
+        ctx.check("copies: a list passed to a library call is not modified", st == "ok" and arg == given, {"call": "fft.find_notes", "table": given}, given,
+                  arg, mechanism="arg:find_notes")
+        arg = list(given)
+        st, _r = ctx.call(realfft.find_notes, arg, 60)
+        ctx.check("copies: a list passed to a library call is not modified", st == "ok" and arg == given, {"call": "fft.find_notes(maxNote=60)",
+                  "table": given}, given, arg, mechanism="arg:find_notes")
     st, first = ctx.call(realfft.find_notes, list(table_in))
     if st == "ok":
         snap = [(None if n is None else (n.name, n.octave), a) for (n, a) in first]
